@@ -197,7 +197,11 @@ func runConverted(in input, baseDir string) obs {
 	} else {
 		objs, ruleOf = ingressObjects(in)
 	}
-	objs = append(objs, p.GlobalConfigMap(map[string]string{"path-type-order": strings.Join(in.Order, ",")}))
+	ostr := strings.Join(in.Order, ",")
+	if in.OrderStr != nil {
+		ostr = *in.OrderStr
+	}
+	objs = append(objs, p.GlobalConfigMap(map[string]string{"path-type-order": ostr}))
 	var batch []pipeline.Change
 	for _, o := range objs {
 		batch = append(batch, pipeline.Change{Op: pipeline.Create, Obj: o})
@@ -220,6 +224,10 @@ func runConverted(in input, baseDir string) obs {
 		}
 	}
 	ob.ruleOf = ruleOf
+	ob.order = []string{}
+	for _, m := range cfg.Global().MatchOrder {
+		ob.order = append(ob.order, string(m))
+	}
 	if maps := cfg.Frontend().Maps; maps != nil && maps.HTTPHostMap != nil {
 		for _, mf := range maps.HTTPHostMap.MatchFiles() {
 			fo := fileObs{Name: filepath.Base(mf.Filename()), Method: mf.Method(), Lower: mf.Lower()}
